@@ -71,6 +71,7 @@ def mk(docs, job, cfg):
         queues = {}         # topic -> list of (uid, size_term)
         delivered = {}      # topic -> count
         uid = 0
+        last_peek = {}
         obs = []            # predicted observations, one per op
         ops_out = []        # replay script ops (sizes as var names)
 
@@ -172,6 +173,58 @@ def mk(docs, job, cfg):
             # ---- reads
             checkpoint = kind in ('n', 'b', 'B')
             budget = None
+            if kind == 'o':
+                # offset-addressed read: symbolic offset, budget and checkpoint flag; must not change anything
+                j = len(budgets)
+                budget = BV(bv64(conc['budgets'][sum(1 for b in budgets if not getattr(b, 'is_max', False))]), 64) if conc else x.symbv('budget%d' % j)
+                budgets.append(budget)
+                vars_.append(('budget%d' % j, budget.t))
+                oi = len(offsets)
+                off = BV(bv64(conc['offsets'][oi]), 64) if conc else x.symbv('offset%d' % oi)
+                offsets.append(off)
+                vars_.append(('offset%d' % oi, off.t))
+                ck = x.flip('offset_read_checkpoint%d' % i) if not conc else bool(conc.get('ck', [False])[0])
+                res = engine.api(x, w, 'batch_read_for_topic', [PStr(topic), budget, ck, Some(off)])
+                ops_out.append(dict(op='batch_read', topic=topic, checkpoint=ck, budget='budget%d' % j, start_offset='offset%d' % oi))
+                if res.variant == 'Panic':
+                    obs.append(dict(panic=True))
+                    return fail('panic', i, 'offset read panicked: %s' % res.f[0])
+                if res.variant != 'Ok':
+                    obs.append(dict(err=engine.errkind(x, res)))
+                    continue
+                ents = list(x.deref(res.f[0]).items)
+                obs.append(dict(n=len(ents)))
+                if 'C02' in oracles and ents:
+                    # the run must be [suffix of e_k, e_k+1, ...] of this topic's entries in append order
+                    ok = False
+                    conds = []
+                    for k0 in range(len(q)):
+                        if k0 + len(ents) > len(q):
+                            break
+                        u0, s0 = q[k0]
+                        first = engine.entry_chunks(x, ents[0])
+                        fl = x.buf_len(Buffer(first)).t
+                        c0 = envmodel.chunks_equal(x, first, [Opaque(u0, z3.simplify(s0.t - fl), fl)])
+                        c0 = x.land(c0, z3.ULE(fl, s0.t)) if c0 is not False else False
+                        rest = True
+                        for jx in range(1, len(ents)):
+                            uu, ss = q[k0 + jx]
+                            rest = x.land(rest, engine.entry_is(x, ents[jx], uu, ss.t))
+                        cond = x.land(c0, rest)
+                        if cond is True:
+                            ok = True
+                            break
+                        if cond is not False:
+                            conds.append(cond)
+                    if not ok and conds:
+                        none_holds = z3.And([z3.Not(c) for c in conds])
+                        if x.sat(none_holds):
+                            x.solver.add(none_holds)
+                        else:
+                            ok = True
+                    if not ok:
+                        return fail('offset-read', i, 'offset read returned %s, which is not a run of this topic\'s entries in append order' % [engine.describe_entry(x, en) for en in ents])
+                continue
             if kind in ('n', 'p'):
                 res = engine.api(x, w, 'read_next', [PStr(topic), checkpoint])
                 ops_out.append(dict(op='read_next', topic=topic, checkpoint=checkpoint))
@@ -179,14 +232,18 @@ def mk(docs, job, cfg):
                 j = len(budgets)
                 if kind == 'B':
                     budget = BV(bv64(MAXU), 64)
+                elif kind == 'b' and i > 0 and skel[i - 1][0] == 'P' and skel[i - 1][1] == topic and budgets:
+                    budget = budgets[-1]
+                    j = len(budgets) - 1
                 elif conc:
                     budget = BV(bv64(conc['budgets'][sum(1 for b in budgets if b is not None and not getattr(b, 'is_max', False))]), 64)
                 else:
                     budget = x.symbv('budget%d' % j)
                 if kind == 'B':
                     budget.is_max = True
-                budgets.append(budget)
-                vars_.append(('budget%d' % j, budget.t))
+                if j == len(budgets):
+                    budgets.append(budget)
+                    vars_.append(('budget%d' % j, budget.t))
                 res = engine.api(x, w, 'batch_read_for_topic', [PStr(topic), budget, checkpoint, NONE])
                 ops_out.append(dict(op='batch_read', topic=topic, checkpoint=checkpoint, budget=(MAXU if kind == 'B' else 'budget%d' % j)))
             if res.variant == 'Panic':
@@ -202,6 +259,26 @@ def mk(docs, job, cfg):
                 ents = list(x.deref(res.f[0]).items)
             k = len(ents)
             obs.append(dict(n=k))
+            if 'C02' in oracles:
+                if kind in ('p', 'P'):
+                    last_peek[topic] = (kind, budget, [engine.entry_chunks(x, en) for en in ents])
+                elif topic in last_peek:
+                    pk, pb, pents = last_peek.pop(topic)
+                    same_args = (pk == 'p' and kind == 'n') or (pk == 'P' and kind == 'b' and pb is budget)
+                    if same_args:
+                        diff = None
+                        if len(pents) != k:
+                            diff = 'peek returned %d entries, the consuming read with the same arguments %d' % (len(pents), k)
+                        else:
+                            for pe_, en in zip(pents, ents):
+                                eq = envmodel.chunks_equal(x, pe_, engine.entry_chunks(x, en))
+                                if eq is False or (eq is not True and x.sat(z3.Not(eq))):
+                                    if eq is not False:
+                                        x.solver.add(z3.Not(eq))
+                                    diff = 'peek and the following consuming read returned different entries'
+                                    break
+                        if diff:
+                            return fail('peek-differs', i, diff)
             # C03: cap, progress, budget
             if 'C03' in oracles and budget is not None:
                 if k > 2000:
